@@ -72,6 +72,8 @@ let handle = function
   (* to <dbg> <url record> *)
   | ["to"; dbg; u] ->
     show_fres show_list (to_file_path (dbg_of dbg) (parse_url_tok u))
+  (* pathjoin <p> <f> *)
+  | ["pathjoin"; p; f] -> show_list (path_join (parse_list p) (parse_list f))
   (* patheq <p> <q> *)
   | ["patheq"; p; q] -> show_bool (path_eq (parse_list p) (parse_list q))
   (* join <dbg> <dir path> <reference code points>: from_directory_path, join, to_file_path *)
